@@ -39,6 +39,7 @@ fn type_tag(b: &Base) -> u8 {
         Base::DateTime(..) => 15,
         Base::Dur(..) => 16,
         Base::My(_) => 17,
+        Base::FlushThenI32(_) => 5,
     }
 }
 
